@@ -888,6 +888,28 @@ def i_CMPXCHG8B(i, fmap):
     fmap[edx] = v[32:64]
 
 
+def i_XADD(i, fmap):
+    fmap[eip] = fmap[eip] + i.length
+    dst, src = i.operands
+    a = fmap(dst)
+    b = fmap(src)
+    x, carry, overflow = AddWithCarry(a, b)
+    fmap[pf] = parity8(x[0:8])
+    fmap[af] = halfcarry(a, b)
+    fmap[zf] = x == 0
+    fmap[sf] = x < 0
+    fmap[cf] = carry
+    fmap[of] = overflow
+    if dst._is_mem:
+        # stored first: the address may depend on src
+        fmap[dst] = x
+        fmap[src] = a
+    else:
+        # the sum is written last (xadd r,r with the same register)
+        fmap[src] = a
+        fmap[dst] = x
+
+
 def i_TEST(i, fmap):
     fmap[eip] = fmap[eip] + i.length
     op1 = fmap(i.operands[0])
